@@ -152,6 +152,10 @@ Definition dres_eqb (a b : dres) : bool :=
   | _, _ => false
   end.
 
+(* block i of the base (shorter than blk only for the last block) *)
+Definition block_at (base : list byte) (blk i : nat) : list byte :=
+  firstn blk (skipn (i * blk) base).
+
 Section Rsync.
 
 (* the strong hash *)
@@ -168,6 +172,12 @@ Record sig := mksig { sblk : nat; slast : nat; shashes : list bhash }.
 
 Definition hash_block (b : list byte) (blk : nat) : bhash :=
   mkbh (weak_of b blk) (H b).
+
+(* SPEC-LEVEL ASSUMPTION used by C19: the strong hash does not collide between a
+   block of the base and a window (contiguous piece) of the target *)
+Definition collision_free (base : list byte) (blk : nat) (target : list byte) : Prop :=
+  forall i w, i * blk < length base -> (exists p q, target = p ++ w ++ q) ->
+              H w = H (block_at base blk i) -> w = block_at base blk i.
 
 (* for !eof { n, err := io.ReadFull(base, buffer) ... } : returns
    (LastBlockSize, Hashes); None = out of fuel *)
@@ -522,6 +532,17 @@ Fixpoint transmit_loop (r : rlog) (fs : list tfile) : rlog * tres :=
 Definition transmit_files (fs : list tfile) : rlog * tres := transmit_loop [] fs.
 
 Definition delivered (r : rlog) : list tmsg := map fst (filter snd r).
+
+(* SPEC: what the receiver must have been handed for one file when Transmit
+   reports success: an explicit per-file error if the file cannot be opened,
+   otherwise exactly the failure-free delta of the file followed by Done *)
+Definition expected_file (f : tfile) : list tmsg :=
+  match fst f with
+  | None => [TDone true]
+  | Some target =>
+    let '(res, t) := deltify_tx H Deqb fixed all_ok target (snd f) 0 in
+    map fst (msgs_of (length target) t) ++ [TDone (negb (dres_eqb res DOk))]
+  end.
 Definition rx_any_failed (r : rlog) : bool := existsb (fun x => negb (snd x)) r.
 
 (* what the receiver holds for each file after the delivered messages:
@@ -566,6 +587,16 @@ Definition check_C19 (base target : list byte) (blk maxop0 : nat) (ops : list op
     && (if list_eqb base target then forallb (fun o => negb (is_data o)) ops else true)
     && sig_valid strong_valid s
   end.
+
+(* the property C19 as a Prop on (input, observed operations) *)
+Definition C19_holds (base target : list byte) (blk maxop0 : nat) (ops : list op) : Prop :=
+  exists s, signature H base blk = Some s /\
+    patch base s ops = Some target /\
+    Forall (fun o => op_valid o = true) ops /\
+    Forall (fun o => op_in_range (length (shashes s)) o = true) ops /\
+    Forall (fun o => length (odata o) <= eff_max maxop0) ops /\
+    (base = target -> Forall (fun o => is_data o = false) ops) /\
+    sig_valid strong_valid s = true.
 
 (* C20 on an observed Deltify run: [err] = Deltify returned an error,
    [t] = the transmitter's call log (operation, delivered?).  Either an error
